@@ -23,6 +23,9 @@ type Obligation struct {
 	Inputs []NamedTerm
 	// Cover obligations are expected SAT (vacuity guards).
 	ExpectSat bool
+	// Lemmas: postconditions listed earlier in the same contract, usable as assumptions for this one (if one of
+	// them does not hold it is reported itself, so the overall verdict is unaffected)
+	Lemmas []*smt.Term
 }
 
 type NamedTerm struct {
